@@ -122,11 +122,11 @@ def run(model, res, tier):
             um = m
     if um is None:
         raise AnalysisError('date converters not found (anchor vanished)')
-    _r1(model, res, c, um)
-    _r2(model, res, c, um)
-    _r4(model, res, c)
-    _r5(model, res, c)
-    _r6(model, res, c)
+    H.safely(res, 'R1', 'r1', _r1, model, res, c, um)
+    H.safely(res, 'R2', 'r2', _r2, model, res, c, um)
+    H.safely(res, 'R4', 'r4', _r4, model, res, c)
+    H.safely(res, 'R5', 'r5', _r5, model, res, c)
+    H.safely(res, 'R6', 'r6', _r6, model, res, c)
     keys = [(um.name, um.functions.key_of('serialize_date')), (um.name, um.functions.key_of('parse_date'))]
     region = c.cg.reachable(keys)
     purity.check_region(res, c, 'R3', None, region, 'a date converter')
